@@ -16,6 +16,8 @@ EXPLANATION = (
     "outside it (double-checked locking).")
 NOT_DECIDED = "that concurrent results equal serial results (an equality of executions)"
 
+TECHNIQUE = ('lockset-style audit: every write to mutable members / non-const statics reachable from per-stream entry points must be lock-dominated, atomic or stream-indexed; double-checked-locking detection; reachability of registry mutators')
+
 UNITS = [
     "src/celeritas/user/ActionDiagnostic.cc", "src/celeritas/user/StepDiagnostic.cc",
     "src/celeritas/user/SlotDiagnostic.cc", "src/celeritas/user/SimpleCalo.cc",
